@@ -291,7 +291,7 @@ class NativeFilestore(VirtualFilestore):
             return FilestoreResponseStatusCode.REMOVE_DIR_SUCCESS
         except OSError:
             _LOGGER.exception(f"Removing directory {dir_name} failed")
-            return FilestoreResponseStatusCode.RENAME_NOT_PERFORMED
+            return FilestoreResponseStatusCode.REMOVE_DIR_NOT_ALLOWED
 
     def create_directory(self, dir_name: Path) -> FilestoreResponseStatusCode:
         if dir_name.exists():
